@@ -2,9 +2,10 @@ SPECIFICATION Spec
 CONSTANTS
   Mode = "bfs"
   Ns = {4}
-  Shapes = {3,4,5}
-  MaxLen = 3
+  Shapes = {1,2,3,4,5,6}
+  Deep = {2,3,4,5,6}
+  MaxLen = 2
   MaxPages = 40
-  Alpha = "small"
+  Deep3 = {4,5}
   Emit = TRUE
 INVARIANTS TreesOK PagesOK StepSane EmitCase
